@@ -166,7 +166,7 @@ func specOutstanding(a *Association, tsn uint32) bool {
 //@      !a.useInterleaving && a.useForwardTSN && arg1 == chunkTSN.newCumulativeTSN && arg1 != a.payloadQueue.cumulativeTSN && !specSerLT32(arg1, a.payloadQueue.cumulativeTSN)
 //@   at call Stream.handleForwardTSNForUnordered assert#purge-up-to-the-forwarded-tsn{C07} arg1 == chunkTSN.newCumulativeTSN
 //@   loop 1 complete{C07}
-//@   loop 1 atend assert#every-listed-stream-has-its-cursor-advanced{C07} a.streams[forwarded.identifier] != nil
+//@   loop 1 atend assert#every-listed-stream-has-its-cursor-advanced{C07} a.streams[forwarded.identifier] != nil || lastNil("Association.getOrCreateStream")
 //@   loop 2 complete{C07}
 //@   safety C03
 
@@ -177,7 +177,7 @@ func specOutstanding(a *Association, tsn uint32) bool {
 //@   at call receivePayloadQueue.advanceCumulativeTSN assert#only-as-negotiated-and-forward{C17,C05,C07,C03}
 //@      a.useIForwardTSN && arg1 == chunkTSN.newCumulativeTSN && arg1 != a.payloadQueue.cumulativeTSN && !specSerLT32(arg1, a.payloadQueue.cumulativeTSN)
 //@   loop 1 complete{C07}
-//@   loop 1 atend assert#every-listed-stream-has-its-cursor-advanced{C07} a.streams[forwarded.identifier] != nil
+//@   loop 1 atend assert#every-listed-stream-has-its-cursor-advanced{C07} a.streams[forwarded.identifier] != nil || lastNil("Association.getOrCreateStream")
 //@   safety C03
 
 //@ func Association.handleInit
@@ -234,10 +234,9 @@ func specOutstanding(a *Association, tsn uint32) bool {
 
 //@ func Association.createStream
 //@   ensures#registered{C07,C14} result != nil ==> a.streams[streamIdentifier] == result && result.streamIdentifier == streamIdentifier && isNew(result)
-//@   ensures#accept-queue-has-room{TRUSTED} result != nil
+//@   ensures#only-an-inbound-stream-can-be-refused{C03} !accept ==> result != nil
 //@ func Association.getOrCreateStream
 //@   ensures#exists-afterwards{C07,C14} result != nil ==> a.streams[streamIdentifier] == result
-//@   ensures#never-refused{TRUSTED} result != nil
 
 // ---- C14: stream reset ordered after the stream's data ----
 
